@@ -644,6 +644,9 @@ func (sc *SpecCtx) call(x *SX) Val {
 			sc.fail(x, fmt.Sprintf("%s expects %d arguments", name, n))
 		}
 	}
+	if name == "f64" || name == "f32" || strings.HasPrefix(name, "fp.") {
+		return sc.fpCall(x, name, args)
+	}
 	switch name {
 	case "old":
 		need(1)
